@@ -502,11 +502,47 @@ def v1_successors(el, i):
     return out
 
 
-def v1_check(flow_id, elements):
-    """returns (problems, n_states, n_edges, type_counts)"""
-    els = v1_runtime_elements(elements)
-    n = len(els)
+def is_v1_declaration(el):
+    """a `meta` element as the parser emits it for `meta ...` / `priority N` / the header modifiers: the carrier of the
+    flow-level declarations.  (`event meta` would be the event pattern {"_type": "meta"} without the dict.)"""
+    return el.get("_type") == "meta" and isinstance(el.get("meta"), dict)
+
+
+def v1_step_problems(flow_id, els):
+    """`els` is a flow as the runtime holds it (FlowConfig.elements).  Every element has to be a step of the
+    interpreter: something `slide` has a rule for (V1_SLIDING), a `branch`, a subflow call (`flow`), an action
+    (`run_action`) or an event pattern (any other type: `_is_match` compares it with events of that type).  A
+    declaration element is none of these: it belongs to the FlowConfig, the loader's job is to take it out of the
+    sequence; left inside, `slide` stops on it, no event of the language matches it and it is not actionable."""
+    heads = {}
+    for i, el in enumerate(els):
+        if el.get("_type") == "branch":
+            for bh in el.get("branch_heads", []):
+                try:
+                    heads.setdefault(i + int(bh), i)
+                except (TypeError, ValueError):
+                    pass
     probs = []
+    for i, el in enumerate(els):
+        if is_v1_declaration(el):
+            where = (f"; it is the head of a branch of the `branch` element at {heads[i]} (that branch can never match)"
+                     if i in heads else "")
+            probs.append(Problem(
+                "v1:non-primitive-left:meta",
+                f"v1 flow `{flow_id}`: element {i} of the loaded flow ({len(els)} elements) is the declaration "
+                f"{_short(el)} - not a step: a head that arrives there stays for ever, the declaration is not "
+                f"applied to the flow{where}",
+                {"pos": i, "element": _short(el), "branch_head_of": heads.get(i)}))
+    return probs
+
+
+def v1_check(flow_id, elements, raw=False, steps=False):
+    """returns (problems, n_states, n_edges, type_counts).
+    raw: `elements` is the list the runtime holds (no model of the loader applied);
+    steps: also demand that every element is a step of the interpreter (v1_step_problems)"""
+    els = elements if raw else v1_runtime_elements(elements)
+    n = len(els)
+    probs = v1_step_problems(flow_id, els) if steps else []
     edges = 0
     types = {}
     for i, el in enumerate(els):
